@@ -378,7 +378,7 @@ class OpsMixin:
                 d.update(sub.items)
             else:
                 kk = self.eval(k, env)
-                if not isinstance(kk, (str, int, bytes, tuple)):
+                if kk is not None and not isinstance(kk, (str, int, bytes, tuple)):
                     raise Unsupported("symbolic dict key in literal")
                 d[kk] = self.eval(v, env)
         return SDict(d)
